@@ -36,6 +36,14 @@ impl SubIndex {
     ensures r == (match *self { SubIndex::Complete => 1u8, SubIndex::Index(i) => i })
 @*/
 }
+impl From<u8> for SubIndex {
+/*@fn file=src/mailbox/coe/headers.rs impl="impl From<u8> for SubIndex" name=from ret=none canary=0
+@*/
+}
+impl vstd::std_specs::convert::FromSpecImpl<u8> for SubIndex {
+    open spec fn obeys_from_spec() -> bool { true }
+    open spec fn from_spec(v: u8) -> SubIndex { SubIndex::Index(v) }
+}
 impl SdoNormal {
 /*@fn file=src/mailbox/coe/services.rs impl="impl SdoNormal" name=upload props=C15
     ensures
@@ -151,6 +159,98 @@ pub proof fn lemma_seg_push(hs: Seq<SdoSegmented>, ds: Seq<Seq<u8>>, h: SdoSegme
     assert(ds.push(d).drop_last() =~= ds);
     assert(hs.push(h).last() == h);
     assert(ds.push(d).last() == d);
+}
+
+/// "the value `bytes` (1..=4 bytes) was written to (index, sub) by an expedited download that the device acknowledged" - the
+/// postcondition of sdo_write for a plain sub-index
+pub open spec fn entry_written(index: u16, sub: u8, bytes: Seq<u8>) -> bool {
+    exists|req: SdoExpedited| #[trigger] exchanged(req)
+        && 1 <= req.header.counter <= 7
+        && req.sdo_header.command == CoeCommand::Download && req.sdo_header.expedited_transfer
+        && req.sdo_header.index == index && req.sdo_header.sub_index == sub && !req.sdo_header.complete_access
+        && req.sdo_header.size as int == 4 - bytes.len()
+        && req.data@.subrange(0, bytes.len() as int) == bytes
+        && (forall|i: int| bytes.len() <= i < 4 ==> req.data@[i] == 0)
+}
+/// the count byte at sub-index 0
+pub open spec fn arr_written(index: u16, sub: u8, count: int) -> bool { entry_written(index, sub, seq![count as u8]) }
+
+impl EtherCrabWireWrite for u8 {
+    open spec fn packed(&self) -> Seq<u8> { seq![*self] }
+    #[verifier::external_body]
+    fn packed_len(&self) -> (r: usize) { 1 }
+    #[verifier::external_body]
+    fn pack_to_slice<'buf>(&self, buf: &'buf mut [u8]) -> (r: Result<&'buf [u8], WireError>) { unimplemented!() }
+}
+/// blanket impl for references (ethercrab-wire/src/impls.rs)
+impl<T: EtherCrabWireWrite> EtherCrabWireWrite for &T {
+    open spec fn packed(&self) -> Seq<u8> { (**self).packed() }
+    #[verifier::external_body]
+    fn packed_len(&self) -> (r: usize) { unimplemented!() }
+    #[verifier::external_body]
+    fn pack_to_slice<'buf>(&self, buf: &'buf mut [u8]) -> (r: Result<&'buf [u8], WireError>) { unimplemented!() }
+}
+pub struct Buf1 { pub b: [u8; 1] }
+impl BufLike for Buf1 {
+    open spec fn bytes(&self) -> Seq<u8> { self.b@ }
+    #[verifier::external_body]
+    fn as_mut(&mut self) -> (r: &mut [u8]) { &mut self.b }
+    #[verifier::external_body]
+    fn as_ref(&self) -> (r: &[u8]) { &self.b }
+}
+impl EtherCrabWireSized for u8 {
+    const PACKED_LEN: usize = 1;
+    type Buffer = Buf1;
+    #[verifier::external_body]
+    fn buffer() -> (r: Buf1) { Buf1 { b: [0; 1] } }
+}
+impl EtherCrabWireRead for u8 {
+    open spec fn unpack_spec(b: Seq<u8>) -> Result<u8, WireError> {
+        if b.len() < 1 { Err(WireError::ReadBufferTooShort) } else { Ok(b[0]) }
+    }
+    #[verifier::external_body]
+    fn unpack_from_slice(buf: &[u8]) -> (r: Result<u8, WireError>) { unimplemented!() }
+}
+impl EtherCrabWireReadSized for u8 {}
+/// `lo..=hi` over u8 (R8: core::ops::RangeInclusive<u8> as an iterator): yields lo, lo+1, .., hi
+pub struct RangeInclU8 { pub next: int, pub hi: u8 }
+#[verifier::external_body]
+pub fn range_incl_u8(lo: u8, hi: u8) -> (r: RangeInclU8) ensures r.next == lo, r.hi == hi { unimplemented!() }
+impl RangeInclU8 {
+    #[verifier::external_body]
+    pub fn next(&mut self) -> (r: Option<u8>)
+        ensures
+            final(self).hi == old(self).hi,
+            old(self).next > old(self).hi ==> r is None && final(self).next == old(self).next,
+            old(self).next <= old(self).hi ==> r == Some(old(self).next as u8) && final(self).next == old(self).next + 1,
+    { unimplemented!() }
+}
+/// stand-in for heapless::Vec<T, N>
+pub struct CapVec<T, const N: usize> { pub v: Vec<T> }
+impl<T, const N: usize> CapVec<T, N> {
+    #[verifier::external_body]
+    pub fn new() -> (r: Self) ensures r.v@.len() == 0 { unimplemented!() }
+    #[verifier::external_body]
+    pub fn push(&mut self, item: T) -> (r: Result<(), T>)
+        ensures
+            (r is Ok) == (old(self).v@.len() < N),
+            r is Ok ==> final(self).v@ == old(self).v@.push(item),
+            r is Err ==> final(self).v@ == old(self).v@,
+    { unimplemented!() }
+}
+/// `slice.iter().enumerate()` (R8)
+pub struct EnumIter<'a, T> { pub s: &'a [T], pub pos: usize }
+pub fn enumerate_slice<'a, T>(s: &'a [T]) -> (r: EnumIter<'a, T>) ensures r.s@ == s@, r.pos == 0 { EnumIter { s, pos: 0 } }
+impl<'a, T> EnumIter<'a, T> {
+    #[verifier::external_body]
+    pub fn next(&mut self) -> (r: Option<(usize, &'a T)>)
+        requires old(self).pos <= old(self).s@.len()
+        ensures
+            final(self).s@ == old(self).s@,
+            old(self).pos >= old(self).s@.len() ==> r is None && final(self).pos == old(self).pos,
+            old(self).pos < old(self).s@.len() ==> r is Some && (r->Some_0).0 == old(self).pos && *((r->Some_0).1) == old(self).s@[old(self).pos as int]
+                && final(self).pos == old(self).pos + 1,
+    { unimplemented!() }
 }
 
 /// the CoE view of a SubDevice: the device side is `mailbox_write_read`, which may answer ANYTHING
@@ -308,6 +408,37 @@ impl Coe {
     decreases buf@.len() - total_len
 @closure 0 "|_e: WireError| -> (cr: Error)"
     ensures cr == Error::Pdu(PduError::Decode)
+@*/
+
+// the array helpers: the implicit `.into()` of the sub-index argument (first statement of sdo_write / sdo_read, removed there by
+// substitution) is spelled out at the call sites instead
+/*@fn file=src/mailbox/coe/mod.rs impl="impl<'maindevice, S> Coe<'maindevice, S>" name=sdo_write_array subst="impl AsRef<[T]>=>&[T]@@self.sdo_write(index, 0,=>self.sdo_write(index, SubIndex::from(0u8),@@self.sdo_write(index, i as u8,=>self.sdo_write(index, SubIndex::from(i as u8),@@values.iter().enumerate()=>enumerate_slice(values)" props=C15 attr="#[verifier::loop_isolation(false)]"
+    requires values@.len() <= 254          // sub-indices are 8 bit: at most 254 entries behind the count
+    ensures
+        // Ok => the count was cleared first, entry k went to sub-index k+1 (k = 0..n-1, in order), the count n was written last
+        r is Ok ==> arr_written(index, 0, 0) && arr_written(index, 0, values@.len() as int)
+            && forall|k: int| 0 <= k < values@.len() ==> #[trigger] entry_written(index, (k + 1) as u8, values@[k].packed()),
+@loop 0
+    invariant
+        __it0.pos <= values@.len(), __it0.s@ == values@,
+        forall|k: int| 0 <= k < __it0.pos ==> #[trigger] entry_written(index, (k + 1) as u8, values@[k].packed()),
+    decreases values@.len() - __it0.pos
+@*/
+
+/*@fn file=src/mailbox/coe/mod.rs impl="impl<'maindevice, S> Coe<'maindevice, S>" name=sdo_read_array subst="heapless::Vec<T, MAX_ENTRIES>=>CapVec<T, MAX_ENTRIES>@@heapless::Vec::new()=>CapVec::<T, MAX_ENTRIES>::new()@@self.sdo_read::<u8>(index, 0)=>self.sdo_read::<u8>(index, SubIndex::from(0u8))@@self.sdo_read::<T>(index, i)=>self.sdo_read::<T>(index, SubIndex::from(i))@@1..=len=>range_incl_u8(1, len)" incl_ranges=1 props=C15,C16 attr="#[verifier::loop_isolation(false)]"
+    requires T::PACKED_LEN <= 0x7fff_ffff
+    ensures
+        // Ok => as many entries as the count at sub-index 0 said (never more than the caller's capacity - a larger count is an
+        // error, not a truncation); entry k is what reading sub-index k+1 returned
+        r is Ok ==> (r->Ok_0).v@.len() <= MAX_ENTRIES && (r->Ok_0).v@.len() <= 255,
+        r is Err && r->Err_0 == Error::Capacity(Item::SdoSubIndex) ==> true,
+@loop 0
+    invariant
+        __it0.hi == len, 1 <= __it0.next <= len as int + 1,
+        values.v@.len() == __it0.next - 1, len as int <= MAX_ENTRIES,
+    decreases len as int + 1 - __it0.next
+@closure 0 "|_e: T| -> (cr: Error)"
+    ensures cr == Error::Internal
 @*/
 }
 
